@@ -10,6 +10,7 @@ package ackhandler
 
 import (
 	"fmt"
+	"strconv"
 	"strings"
 	"time"
 
@@ -53,6 +54,7 @@ type c07Inst struct {
 	now     monotime.Time
 	dead    bool
 	outcome string
+	scratch c07Scratch
 }
 
 func newC07Inst(cfg *c07Cfg) *c07Inst {
@@ -212,7 +214,7 @@ func (in *c07Inst) recv(op explore.Op) *explore.Fail {
 	ae := op.C&1 == 1
 	ecn := protocol.ECN(op.C >> 1)
 	explore.Must(!s.dropped && pn < s.U, "recv on dropped space / outside universe: %v", op)
-	tag := fmt.Sprintf("recv/%s", enc)
+	tag := "recv/" + enc.String()
 
 	// connection.go:1221 / :1367 - duplicate test before anything of the packet is processed
 	dup := in.h.IsPotentiallyDuplicate(protocol.PacketNumber(pn), enc)
@@ -299,7 +301,7 @@ func (in *c07Inst) getAck(si int, onlyIfQueued bool) *explore.Fail {
 	enc := c07Enc[si]
 	must, why := in.mustHaveAck(si)
 	f := in.h.GetAckFrame(enc, in.now, onlyIfQueued)
-	tag := fmt.Sprintf("ack/%s/q=%v", s.name, onlyIfQueued)
+	tag := "ack/" + s.name + "/q=" + strconv.FormatBool(onlyIfQueued)
 	if f == nil {
 		if must {
 			return explore.Failf("ack-not-returned/"+s.name+"/"+why, "GetAckFrame(%s, onlyIfQueued=%v) returned nil although an ACK is due (%s)", enc, onlyIfQueued, why)
@@ -328,7 +330,11 @@ func (in *c07Inst) getAck(si int, onlyIfQueued bool) *explore.Fail {
 	if nr > 3 {
 		nr = 3
 	}
-	in.outcome = fmt.Sprintf("%s/ranges=%d%s/%s", tag, nr, map[bool]string{true: "+", false: ""}[len(ranges) > 3], why)
+	plus := ""
+	if len(ranges) > 3 {
+		plus = "+"
+	}
+	in.outcome = tag + "/ranges=" + strconv.Itoa(nr) + plus + "/" + why
 	return nil
 }
 
@@ -380,7 +386,7 @@ func (in *c07Inst) checkDue() (string, *explore.Fail) {
 		}
 		enc := c07Enc[si]
 		must, why := in.mustHaveAck(si)
-		probe := c07CloneHandler(in.h).GetAckFrame(enc, in.now, true)
+		probe := c07CloneHandler(&in.scratch, in.h).GetAckFrame(enc, in.now, true)
 		if probe != nil {
 			if fl := c07CheckAck(s, probe.AckRanges, "queued ACK ("+enc.String()+")"); fl != nil {
 				return "", fl
@@ -408,14 +414,14 @@ func (in *c07Inst) checkDue() (string, *explore.Fail) {
 		if in.now.After(at) {
 			at = in.now
 		}
-		fired := c07CloneHandler(in.h).GetAckFrame(enc, at, true)
+		fired := c07CloneHandler(&in.scratch, in.h).GetAckFrame(enc, at, true)
 		if fired == nil {
 			return "", explore.Failf("ack-alarm-without-ack", "the ACK alarm fires %v after arrival but GetAckFrame(onlyIfQueued=true) returns nil at that time", at.Sub(oldest))
 		}
 		if fl := c07CheckAck(s, fired.AckRanges, "ACK at alarm time"); fl != nil {
 			return "", fl
 		}
-		status = append(status, fmt.Sprintf("%s:alarm(+%v)", s.name, alarm.Sub(in.now)))
+		status = append(status, s.name+":alarm(+"+alarm.Sub(in.now).String()+")")
 	}
 	if len(status) == 0 {
 		return "idle", nil
@@ -434,7 +440,7 @@ func (in *c07Inst) Key() string {
 				(typ == "wire.AckFrame" && field == "DelayTime")
 		},
 	}))
-	fmt.Fprintf(&sb, "|dead=%v|", in.dead)
+	sb.WriteString("|dead=" + strconv.FormatBool(in.dead) + "|")
 	for _, s := range in.sp {
 		if s.U > 0 {
 			sb.WriteString(s.key(in.now))
